@@ -14,19 +14,29 @@ from . import codec_ref as R
 def run(ctx):
     drv, sess, tally = E.common_setup(ctx, "C01")
     ctx.rule = ("per type: the zero value + N boundary-biased random values (min, max, +-1, out-of-range inside the storage type, NaN, +-inf, "
-                "float16 ties, over-long arrays, invalid tags) -> ser on every target; a third of them also serbuf with cap = advertised size, "
-                "size-1 and size+1 (C/C++); non-trivial = value text is not the empty struct; distinct by (type, op, value)")
+                "float16 ties, NaNs by bit pattern: signalling / quiet, payload in high or low mantissa bits only, over-long arrays, invalid "
+                "tags) -> ser on every target; a third of them also serbuf with cap = advertised size, size-1 and size+1 (C/C++); per type up "
+                "to K variable-length arrays in turn with capacity+1 / roundup8(capacity) / +1 elements -> ser and exactly-sized serbuf; "
+                "Python target: every request also under 2 alternative spellings of its primitive arrays (tuple, exact / wider / narrower / "
+                "byte-swapped / strided / read-only / unaligned / 2-d / object ndarray, bytes-likes; chosen by CRC of the request); "
+                "non-trivial = value text is not the empty struct; distinct by (type, op, value)")
     rng = ctx.rng
     n = 60 if ctx.quick else 120
     reqs = E.corpus_requests(sess, "C01")
     for gt in sess.ns.types:
         mx = R.bounds(gt.expr)[1] // 8
-        for i, v in enumerate(E.value_cases(rng, gt, n)):
+        for i, v in enumerate(E.value_cases(rng, gt, n, nan_payloads=True)):
             reqs.append(E.Req(gt, "ser", v))
             if i < 3 or i % 3 == 0:       # zero and maximum-length values always go into exactly-sized buffers too
                 reqs.append(E.Req(gt, "serbuf", (v, mx)))
                 reqs.append(E.Req(gt, "serbuf", (v, rng.choice([max(0, mx - 1), mx + 1]))))
+        # every variable-length array in turn (bool / byte-like / other / composite elements first) over its capacity: by one,
+        # up to the next multiple of 8 (the size of bit-packed storage) and one beyond; also into exactly-sized buffers
+        for v in E.overlong_values(rng, gt, 3 if ctx.quick else 8):
+            reqs.append(E.Req(gt, "ser", v, origin="overlong"))
+            reqs.append(E.Req(gt, "serbuf", (v, mx), origin="overlong"))
     E.run_requests(ctx, sess, drv, "ser", reqs, tally)
+    E.record_spellings(ctx, sess)
     E.run_refinement_ties(ctx)
     ctx.sample({"type": reqs[-1].gt.tstr[:200], "request": reqs[-1].target_line()[:200]})
 
